@@ -979,7 +979,8 @@ pub fn run() -> SimResult {
     let cap = *pick(&[8192usize, 1, 8, 64, 3]);
     let kn = Knobs {
         classes: gen::GenCfg::draw_knobs().classes,
-        max_str: *pick(&[8u32, 40, 80, 200, 200, 200, 5000]),
+        // (page-spanning strings are for the native engine and its guard pages; under Miri they only cost time)
+        max_str: (*pick(&[8u32, 40, 80, 200, 200, 200, 5000])).min(if cfg!(miri) { 200 } else { 5000 }),
         guarded: draw(4) != 0,
         near_page: draw(2) == 1,
         exotic: draw(2) == 1,
@@ -1005,7 +1006,7 @@ pub fn run() -> SimResult {
         g
     } else if chance(1, 8) {
         // a single long string: "every length 0..200 and beyond"
-        let n = if chance(1, 4) { range(200, 5000) } else { range(0, 200) };
+        let n = if chance(1, 4) && !cfg!(miri) { range(200, 5000) } else { range(0, 200) };
         G::Str(gen_gstr(&kn, gen::gen_string_len(kn.classes, n)))
     } else {
         gen_g(&kn, 0, &mut budget)
